@@ -124,9 +124,13 @@ def field_assignment(draw, d, f, force=None, legal_only=False):
         elif cls == "negative":
             r, exp = Fraction(-draw(st.integers(1, 1000))), ("reject",)
         elif cls == "time_obj":
-            secs = draw(st.integers(0, 86399))
-            tv = time(secs // 3600, (secs % 3600) // 60, secs % 60)
-            return {"cls": cls, "value": tv, "raw_value": None, "expect": ("num",), "target": Fraction(secs)}
+            secs = draw(st.one_of(st.integers(0, 86399), st.sampled_from([0, 1, 59, 60, 3599, 3600, 43199, 43200, 86398, 86399, 86399, 86399])))
+            # datetime.time carries microseconds; the library's time values are whole seconds (its decoder produces nothing finer), so a
+            # fraction may be dropped or rounded to the field's step - but the time must stay the same second of the same day
+            us = draw(st.sampled_from([0, 0, 0, 1, 49, 50, 51, 49999, 50000, 499999, 500000, 999949, 999950, 999951, 999999]))
+            tv = time(secs // 3600, (secs % 3600) // 60, secs % 60, us)
+            return {"cls": cls, "value": tv, "raw_value": None, "expect": ("num",), "target": Fraction(secs) + Fraction(us, 10 ** 6),
+                    "tol": Fraction(1) if us else None, "time_value": tv}
         elif cls == "date_obj":
             days = draw(st.integers(max(dlo, 0), min(dhi, 65000)))
             return {"cls": cls, "value": date(1970, 1, 1) + timedelta(days=days), "raw_value": None, "expect": ("raw", days), "target": Fraction(days)}
@@ -210,7 +214,7 @@ def field_assignment(draw, d, f, force=None, legal_only=False):
     raise AssertionError(t)
 
 
-LEGAL = ("magnitude_edge", "magnitude_edge_ulp", "in_range", "range_min", "range_max", "half_step", "absent", "rep_min", "rep_max", "between", "by_name", "time_obj", "date_obj",
+LEGAL = ("hash_twin", "magnitude_edge", "magnitude_edge_ulp", "in_range", "range_min", "range_max", "half_step", "absent", "rep_min", "rep_max", "between", "by_name", "time_obj", "date_obj",
          "zero", "all_ones")
 
 
@@ -228,7 +232,36 @@ def assignment(draw, d):
     free = [i for i, f in enumerate(d.fields) if f.match is None] or [0]
     change = draw(st.sampled_from(free))
     alt = draw(field_assignment(d, d.fields[change]))
+    # two consecutive messages that differ in ONE value, the two values being equal under CPython's hash (-1 / -2, x / x + 2**61 - 1):
+    # a fingerprint of the previous message built with hash() cannot tell them apart
+    twins = [i for i in free if d.fields[i].type in ("NUMBER", "DURATION") and hash_twin_values(d.fields[i])]
+    if twins and removed is None and draw(st.integers(0, 5)) == 0:
+        change = draw(st.sampled_from(twins))
+        v1, v2 = draw(st.sampled_from(hash_twin_values(d.fields[change])))
+        as_float = draw(st.booleans())
+        mk = (lambda v: {"cls": "hash_twin", "value": (float(v) if as_float else v) if d.fields[change].type == "NUMBER" else None,
+                         "raw_value": float(v) if as_float else v, "expect": ("num",), "target": Fraction(v)})
+        fields = [a if i == change or a["expect"][0] != "reject" else draw(field_assignment(d, d.fields[i], legal_only=True)) for i, a in enumerate(fields)]
+        fields[change], alt = mk(v1), mk(v2)
     return fields, removed, change, alt
+
+
+def hash_twin_values(f):
+    """Pairs of different legal values of field f with equal CPython hash."""
+    b = gen.raw_bounds(f)
+    if not b:
+        return []
+    off = f.offset or 0
+    out = []
+    for v1, v2 in ((-1, -2), (1, 1 + (1 << 61) - 1), (0, (1 << 61) - 1), (-1, -2 - ((1 << 61) - 1))):
+        ok = True
+        for v in (v1, v2):
+            r = (Fraction(v) - off) / f.res
+            if r.denominator != 1 or not (b[0] <= r <= b[1]) or float(v) != v:
+                ok = False
+        if ok:
+            out.append((v1, v2))
+    return out
 
 
 def build_message(d, fields, removed=None):
@@ -264,6 +297,27 @@ class Checker:
             c["alt"] = one(alt)
         return c
 
+    def field_problems(self, d, f, a, payload, case):
+        """Bits of field f in the encoded payload against what assignment a asked for."""
+        out = []
+        u = (payload >> f.offset_bits) & ((1 << f.bits) - 1)
+        e = a["expect"]
+        if e[0] == "reject":
+            return out
+        if e[0] == "raw":
+            if u != e[1]:
+                out.append((f"C09|wrong-bits|{f.type}|{a['cls']}|{d.key}/{f.id}",
+                            f"{f.id}: {a['cls']} value={a['value']!r} raw_value={a['raw_value']!r} encoded as {u:#x}, expected {e[1]:#x}", case))
+        else:
+            got = f.exact(u)
+            na = f.na_code()
+            if na is not None and u == na and not f.na_in_range():
+                out.append((f"C09|value-became-absent|{f.type}|{a['cls']}|{d.key}/{f.id}", f"{f.id}: value {a['value']!r}/{a['raw_value']!r} encoded as the not-available code", case))
+            elif abs(got - a["target"]) > (a.get("tol") or f.res / 2) * (1 + Fraction(1, 10 ** 9)) + abs(a["target"]) * Fraction(1, 10 ** 12):
+                out.append((f"C09|altered|{f.type}|{a['cls']}|{d.key}/{f.id}",
+                            f"{f.id}: {a['cls']} value {float(a['target'])!r} encoded as raw {u:#x} = {float(got)!r} (resolution {float(f.res)})", case))
+        return out
+
     def check(self, d, fields, removed, change, alt):
         ctx = self.ctx
         out = []
@@ -289,27 +343,9 @@ class Checker:
         payload = int.from_bytes(data, "little")
         all_db = True
         for f, a in zip(d.fields, fields):
-            u = (payload >> f.offset_bits) & ((1 << f.bits) - 1)
-            e = a["expect"]
-            if e[0] == "reject":
+            if a["expect"][0] in ("reject", "either") or a.get("outside_db"):
                 all_db = False
-                continue
-            if a.get("outside_db"):
-                all_db = False
-            if e[0] == "raw":
-                if u != e[1]:
-                    out.append((f"C09|wrong-bits|{f.type}|{a['cls']}|{d.key}/{f.id}",
-                                f"{f.id}: {a['cls']} value={a['value']!r} raw_value={a['raw_value']!r} encoded as {u:#x}, expected {e[1]:#x}", case))
-            else:
-                if e[0] == "either":
-                    all_db = False
-                got = f.exact(u)
-                na = f.na_code()
-                if na is not None and u == na and not f.na_in_range():
-                    out.append((f"C09|value-became-absent|{f.type}|{a['cls']}|{d.key}/{f.id}", f"{f.id}: value {a['value']!r}/{a['raw_value']!r} encoded as the not-available code", case))
-                elif abs(got - a["target"]) > f.res / 2 * (1 + Fraction(1, 10 ** 9)) + abs(a["target"]) * Fraction(1, 10 ** 12):
-                    out.append((f"C09|altered|{f.type}|{a['cls']}|{d.key}/{f.id}",
-                                f"{f.id}: {a['cls']} value {float(a['target'])!r} encoded as raw {u:#x} = {float(got)!r} (resolution {float(f.res)})", case))
+            out += self.field_problems(d, f, a, payload, case)
         # library decode agrees when every value is inside the database range
         if all_db and not out and canboat.db().select(d.pgn, payload) is not d:
             ctx.klass("decode_back_skipped_sibling_selected")     # non-match fields happen to carry a sibling's match values (C08 decides that)
@@ -329,6 +365,13 @@ class Checker:
                     if e[0] == "num" and a["target"] is not None and f.type in ("NUMBER", "PGN", "DURATION"):
                         if g.value is None or abs(Fraction(g.value) - a["target"]) > f.res / 2 * (1 + Fraction(1, 10 ** 6)) + abs(a["target"]) * Fraction(1, 10 ** 12):
                             out.append((f"C09|decode-back|{f.type}|{a['cls']}|{d.key}/{f.id}", f"{f.id}: encoded {float(a['target'])!r} decodes back as {g.value!r}", case))
+                    elif a.get("time_value") is not None:
+                        # what the library itself reads back: the same second of the day (fractions may be gone)
+                        tv, gv = a["time_value"], g.value
+                        back_s = None if gv is None else gv.hour * 3600 + gv.minute * 60 + gv.second + gv.microsecond / 1e6
+                        want_s = tv.hour * 3600 + tv.minute * 60 + tv.second + tv.microsecond / 1e6
+                        if back_s is None or abs(back_s - want_s) >= 1.0:
+                            out.append((f"C09|decode-back|TIME|time_obj|{d.key}/{f.id}", f"{f.id}: time {tv!r} decodes back as {gv!r}", case))
                     elif a["cls"] == "absent" and f.type != "FLOAT" and (g.value is not None) and not f.na_in_range():
                         out.append((f"C09|decode-back-absent|{f.type}|{d.key}/{f.id}", f"{f.id}: absent value decodes back as {g.value!r}", case))
         # metamorphic: change one field, only its bits change
@@ -350,6 +393,9 @@ class Checker:
                             self.describe(d, fields, None, change, alt)))
             if data2 is not None:
                 ctx.klass("metamorphic_pairs")
+                # the second message (same encoder, right after the first) carries the NEW value of the changed field
+                for b_, w_, c_ in self.field_problems(d, f, alt, int.from_bytes(data2, "little"), self.describe(d, fields, None, change, alt)):
+                    out.append((b_ + "|second-message", w_ + " (second of two consecutive messages that differ in this field only)", c_))
                 m = ((1 << f.bits) - 1) << f.offset_bits
                 diff = (int.from_bytes(data2, "little") ^ payload) & ~m
                 if diff:
@@ -452,7 +498,8 @@ def reconstruct(f, cls, value, raw_value):
         dlo, dhi = b if b else (lo, hi)
         src = value if t in ("NUMBER", "PGN") else raw_value
         if cls == "time_obj":
-            a["expect"], a["target"] = ("num",), Fraction(value.hour * 3600 + value.minute * 60 + value.second)
+            a["expect"], a["target"] = ("num",), Fraction(value.hour * 3600 + value.minute * 60 + value.second) + Fraction(value.microsecond, 10 ** 6)
+            a["tol"], a["time_value"] = (Fraction(1) if value.microsecond else None), value
             return a
         if cls == "date_obj":
             days = (value - date(1970, 1, 1)).days
